@@ -54,9 +54,22 @@ OVERLAY = {"server/internal/cache/blob/zz_verif_c08_test.go": "server_internal_c
 PKG = "./server/internal/cache/blob/"
 
 
+def link_variant():
+    """Tie 1 (source fact): which Link is in the tree?  The repaired Link (proposed_fixes/C08-F8.patch) renames a
+    temporary file over the manifest; the pinned one calls copyNamedFile on the manifest name itself."""
+    import os
+    import re
+    src = open(os.path.join(core.REPO, "server/internal/cache/blob/cache.go")).read()
+    m = re.search(r"\nfunc \(c \*DiskCache\) Link\(.*?\n}\n", src, flags=re.S)
+    body = m.group(0) if m else ""
+    return 1 if "os.Rename(" in body else 0
+
+
 def run(ctx):
     ctx.lean_check(MODULES, THEOREMS)
-    env = {"VERIF_N": ctx.scale(1200, 30000), "VERIF_NCONC": ctx.scale(1200, 20000),
+    variant = link_variant()
+    ctx.coverage["link_variant"] = "repaired (temp+rename)" if variant else "pinned (in place)"
+    env = {"VERIF_C08_FIXED": variant, "VERIF_N": ctx.scale(1200, 30000), "VERIF_NCONC": ctx.scale(1200, 20000),
            "VERIF_NCRASH": ctx.scale(40, 200)}
     if ctx.replay:
         env["VERIF_REPLAY"] = ctx.replay_line_file()
@@ -69,7 +82,7 @@ def run(ctx):
     if not ctx.replay:
         # the same deterministic interleavings under the race detector (the cache documents itself as safe for
         # concurrent use): a DATA RACE report makes the test binary fail
-        env2 = {"VERIF_C08_PHASES": "conc", "VERIF_NCONC": ctx.scale(150, 1500)}
+        env2 = {"VERIF_C08_FIXED": variant, "VERIF_C08_PHASES": "conc", "VERIF_NCONC": ctx.scale(150, 1500)}
         rc2, out2, outdir2 = ctx.go_test(PKG, OVERLAY, "^TestVerifC08$", env=env2, race=True, timeout=3000)
         if rc2 != 0:
             ctx.violation("race-run-failed", "", out2[-1500:], no_input=True)
